@@ -18,8 +18,8 @@
 (***************************************************************************)
 EXTENDS FileOps, TLC, Json
 CONSTANTS Readers, B, Content, Offsets, Ks, Missing, Depth
-VARIABLES pos, cur, last, hist
-vars == <<pos, cur, last, hist>>
+VARIABLES pos, cur, last, hist, miss   \* miss: blocks currently unavailable (starts as Missing, emptied by Heal)
+vars == <<pos, cur, last, hist, miss>>
 
 L == Len(Content)
 Whences == {SeekStart, SeekCurrent, SeekEnd}
@@ -29,6 +29,7 @@ Init == /\ pos = [r \in Readers |-> 0]
         /\ cur = [r \in Readers |-> {}]
         /\ last = NoOp
         /\ hist = <<>>
+        /\ miss = Missing
 
 Seek(r, off, wh) ==
   LET t == SeekTarget(pos[r], off, wh, L) IN
@@ -40,16 +41,24 @@ Seek(r, off, wh) ==
      ELSE /\ pos' = [pos EXCEPT ![r] = t]
           /\ last' = [NoOp EXCEPT !.op = "seek", !.r = r, !.pre = pos[r], !.ret = t]
   /\ hist' = Append(hist, <<"seek", r, off, wh>>)
+  /\ UNCHANGED miss
 
 \* blocks on the path to leaf i that are not yet in the cursor, root-to-leaf;
 \* the root itself (index 1) is the node the reader was obtained from
 NewLoads(r, i) == SelectSeq(PathTo(B, i), LAMBDA j : j # 1 /\ j \notin cur[r])
-FirstMissing(s) == IF \E k \in 1 .. Len(s) : B[s[k]].c \in Missing
-                   THEN CHOOSE k \in 1 .. Len(s) : B[s[k]].c \in Missing /\ \A m \in 1 .. (k-1) : B[s[m]].c \notin Missing
+FirstMissing(s) == IF \E k \in 1 .. Len(s) : B[s[k]].c \in miss
+                   THEN CHOOSE k \in 1 .. Len(s) : B[s[k]].c \in miss /\ \A m \in 1 .. (k-1) : B[s[m]].c \notin miss
                    ELSE 0
+
+\* the environment makes every block available again (retrieval resumes); readers keep their state
+Heal == /\ Len(hist) < Depth /\ miss # {}
+        /\ miss' = {} /\ hist' = Append(hist, <<"heal">>)
+        /\ last' = NoOp
+        /\ UNCHANGED <<pos, cur>>
 
 Read(r, k) ==
   /\ Len(hist) < Depth
+  /\ UNCHANGED miss
   /\ hist' = Append(hist, <<"read", r, k>>)
   /\ IF pos[r] >= L
      THEN /\ UNCHANGED <<pos, cur>>
@@ -70,8 +79,9 @@ Read(r, k) ==
                    /\ last' = [NoOp EXCEPT !.op = "read", !.r = r, !.n = n, !.pre = pos[r], !.k = k,
                                            !.data = Slice(Content, pos[r], n), !.loads = nl]
 
-Next == \E r \in Readers : \/ \E off \in Offsets, wh \in Whences : Seek(r, off, wh)
-                           \/ \E k \in Ks : Read(r, k)
+Next == \/ \E r \in Readers : \/ \E off \in Offsets, wh \in Whences : Seek(r, off, wh)
+                              \/ \E k \in Ks : Read(r, k)
+        \/ Heal
 Spec == Init /\ [][Next]_vars
 
 (***************************************************************************)
@@ -89,8 +99,10 @@ Inv_C05_NoOverfetch == last.op = "read" =>
                   \A m \in 1 .. Len(last.loads) :
                       last.loads[m] \in NeededIdx(B, last.pre, last.pre + Max(last.k, 1))
 Inv_C12_ErrIffMissing == last.op = "read" =>
-                  /\ last.e = "err" => \E i \in NeededIdx(B, last.pre, last.pre + 1) : B[i].c \in Missing
+                  /\ last.e = "err" => \E i \in NeededIdx(B, last.pre, last.pre + 1) : B[i].c \in miss
                   /\ last.e = "eof" => last.pre >= L
+\* once nothing is missing no read fails: an earlier load error leaves the reader usable
+Inv_C12_HealedReadsSucceed == (last.op = "read" /\ miss = {}) => last.e # "err"
 \* reader independence: a step of one reader leaves the others alone
 Act_C04_Independent == [][\A r \in Readers : (last'.r # r) => (pos'[r] = pos[r] /\ cur'[r] = cur[r])]_vars
 
